@@ -4,8 +4,8 @@
 seeded/eval_log.txt (what our checks reported) and the confirm logs (our own confirmation)."""
 import os, json, shutil, re, sys
 ROOT='/verif/seeded'
-ROUND=2 if len(sys.argv)>1 and sys.argv[1]=='2' else 1
-LOG='eval_log_r2.txt' if ROUND==2 else 'eval_log.txt'
+ROUND=int(sys.argv[1]) if len(sys.argv)>1 else 1
+LOG={1:'eval_log.txt',2:'eval_log_r2.txt',3:'eval_log_r3.txt'}[ROUND]
 evals={}
 for line in open(f'{ROOT}/{LOG}'):
     if line.startswith('#') or not line.strip(): continue
@@ -13,9 +13,9 @@ for line in open(f'{ROOT}/{LOG}'):
     evals[(prop,k)]=(first,after,strength.strip())
 out=[]
 for (prop,k),(first,after,strength) in sorted(evals.items()):
-    wt=f'/tmp/seed-{prop}' if ROUND==1 else f'/tmp/seed2-{prop}'
+    wt={1:f'/tmp/seed-{prop}',2:f'/tmp/seed2-{prop}',3:f'/tmp/seed3-{prop}'}[ROUND]
     src=f'{wt}/OUT/{k}'
-    dst=f'{ROOT}/{prop}-{k}' if ROUND==1 else f'{ROOT}/{prop}-r2-{k}'
+    dst=f'{ROOT}/{prop}-{k}' if ROUND==1 else f'{ROOT}/{prop}-r{ROUND}-{k}'
     if not os.path.isdir(src):
         if os.path.isdir(dst): 
             out.append((prop,k,first,after,strength,'(stored earlier)')); 
@@ -43,8 +43,8 @@ for (prop,k),(first,after,strength) in sorted(evals.items()):
     }
     json.dump(meta,open(f'{dst}/meta.json','w'),indent=1)
     out.append((prop,k,first,after,strength,'confirmed (suite 442+2 ok with the change, demo fails with / passes without)' if 'suite_ok=yes' in conf else 'NOT-CONFIRMED-YET'))
-with open(f'{ROOT}/RESULTS.md' if ROUND==1 else f'{ROOT}/RESULTS_round2.md','w') as f:
+with open(f'{ROOT}/RESULTS.md' if ROUND==1 else f'{ROOT}/RESULTS_round{ROUND}.md','w') as f:
     f.write('# Seeded changes (independently produced) and what the checks report\n\n| seed | first run of the quick check | after strengthening | what was strengthened | confirmation |\n|---|---|---|---|---|\n')
     for prop,k,first,after,strength,c in out:
-        f.write(f'| {prop}-{"r2-" if ROUND==2 else ""}{k} | {first} | {after} | {strength.replace("-"," ") if strength!="-" else "-"} | {c} |\n')
+        f.write(f'| {prop}-{("r%d-"%ROUND) if ROUND>1 else ""}{k} | {first} | {after} | {strength.replace("-"," ") if strength!="-" else "-"} | {c} |\n')
 print(len(out),'seeds stored')
